@@ -530,6 +530,8 @@ class Evaluator:
                     if isinstance(v, Obj):
                         raise _Raise('AttributeError')  # a complete model: the program would fail the same way
                     raise AnalysisError(f'attribute {text(e)} is not part of the model')
+            if isinstance(v, type) and issubclass(v, Record) and hasattr(v, e.attr):
+                return getattr(v, e.attr)  # class attribute of a model class
             if self.model_types and isinstance(v, self.model_types):
                 try:
                     return getattr(v, e.attr)
@@ -588,9 +590,9 @@ class Evaluator:
                 b = self._module_binding(f.id)
                 if isinstance(b, ast.FunctionDef):
                     return self.call_function(b, args, kwargs)
-                if f.id in ('frozenset', 'bytes', 'sum', 'repr', 'iter', 'next', 'filter', 'hasattr', 'callable', 'getattr', 'hex', 'oct', 'bin', 'round', 'float'):
-                    r = {'frozenset': frozenset, 'bytes': bytes, 'sum': sum, 'repr': repr, 'iter': iter, 'next': next, 'filter': filter, 'hasattr': hasattr, 'callable': callable, 'getattr': getattr, 'hex': hex, 'oct': oct, 'bin': bin, 'round': round, 'float': float}[f.id](*args, **kwargs)
-                    return list(r) if f.id == 'filter' else r
+                if f.id in ('frozenset', 'bytes', 'sum', 'repr', 'iter', 'next', 'filter', 'hasattr', 'callable', 'getattr', 'hex', 'oct', 'bin', 'round', 'float', 'range', 'divmod'):
+                    r = {'frozenset': frozenset, 'bytes': bytes, 'sum': sum, 'repr': repr, 'iter': iter, 'next': next, 'filter': filter, 'hasattr': hasattr, 'callable': callable, 'getattr': getattr, 'hex': hex, 'oct': oct, 'bin': bin, 'round': round, 'float': float, 'range': range, 'divmod': divmod}[f.id](*args, **kwargs)
+                    return list(r) if f.id in ('filter', 'range') else r
                 raise AnalysisError(f'call of unmodelled function {f.id}')
             if isinstance(f, ast.Attribute):
                 d = text(f)
